@@ -206,12 +206,13 @@ class _BaseSCML(MahalanobisMixin):
         raise ValueError('The dimensionality ({}) of the provided bases must'
                          ' match the dimensionality of the data '
                          '({}).'.format(basis.shape[1], n_features))
+      n_basis = basis.shape[0]
     elif self.basis not in self._authorized_basis:
       raise ValueError(
           "`basis` must be one of the options '{}' "
           "or an array of shape (n_basis, n_features)."
           .format("', '".join(self._authorized_basis)))
-    if self.basis == 'triplet_diffs':
+    elif self.basis == 'triplet_diffs':
       basis, n_basis = self._generate_bases_dist_diff(triplets, X)
 
     return basis, n_basis
